@@ -38,4 +38,5 @@ var (
 	errAppDefinedInvalidLength  = errors.New("rtcp: application defined type invalid length")
 	errAppDefinedDataTooLarge   = errors.New("rtcp: application defined data is too large")
 	errAppDefinedInvalidName    = errors.New("rtcp: application defined name must be 4 ASCII chars")
+	errFieldOutOfRange          = errors.New("rtcp: field value does not fit its wire width")
 )
